@@ -90,6 +90,16 @@ func uwSweep(seed uint64) []scen {
 			add(off, "err", false) // transient
 		}
 	}
+	// a stored byte flipped (one bit) anywhere in the compressed stream: the checksum in the
+	// gzip trailer exists to notice exactly that, so either Unpack fails or what it
+	// materialised is the archive
+	for off := 0; off < n; off += step {
+		c := *base
+		c.Archives = []uw.Archive{base.Archives[0]}
+		c.Archives[0].Reader.Muts = []mutT{{Kind: "flip", Off: off, Val: 1 << uint(off%8)}}
+		b, _ := json.Marshal(&c)
+		out = append(out, scen{JSON: b, UID: c.UID})
+	}
 	// always the last bytes (gzip trailer region) densely
 	for off := n - 12; off <= n; off++ {
 		if off > 0 && step > 1 {
